@@ -369,19 +369,35 @@ def negative_controls(trace):
     return out
 
 
-def validate(traces, wd, name="trace"):
-    d = wd / name
-    d.mkdir(parents=True, exist_ok=True)
-    path = d / "traces.json"
-    path.write_text(json.dumps([{"hist": t["hist"]} for t in traces]))
-    r = lib.run_tlc("Trace_DecompCtx", lib.cfg(init="TInit", next_="TNext", constants={
-        "NTRACES": len(traces), "NThreads": NT, "NOps": NO, "MaxDepth": 99, "MaxOps": 9999, "MaxEvents": 9999}),
-        d, env={"TRACE_FILE": str(path)}, timeout=3000)
-    lib.require_ok(r, "Trace_DecompCtx")
-    verd = {t[1] - 1: (t[2], t[3]) for t in r.tuples if t[0] == "V"}
-    if len(verd) != len(traces):
-        raise lib.MachineryError(f"verdicts not total: {len(verd)} of {len(traces)}")
-    return r, verd
+class _Agg:
+    """sum of the TLC statistics of several validation runs"""
+
+    def __init__(self):
+        self.distinct = self.generated = 0
+        self.wall_s = 0.0
+
+
+def validate(traces, wd, name="trace", chunk=8000):
+    agg, verd = _Agg(), {}
+    for c0 in range(0, len(traces), chunk):
+        part = traces[c0:c0 + chunk]
+        d = wd / f"{name}_{c0}"
+        d.mkdir(parents=True, exist_ok=True)
+        path = d / "traces.json"
+        path.write_text(json.dumps([{"hist": t["hist"]} for t in part]))
+        r = _tlc("Trace_DecompCtx", lib.cfg(init="TInit", next_="TNext", constants={
+            "NTRACES": len(part), "NThreads": NT, "NOps": NO, "MaxDepth": 99, "MaxOps": 9999, "MaxEvents": 9999}),
+            d, env={"TRACE_FILE": str(path)}, timeout=3000)
+        lib.require_ok(r, "Trace_DecompCtx")
+        v = {c0 + t[1] - 1: (t[2], t[3]) for t in r.tuples if t[0] == "V"}
+        if len(v) != len(part):
+            raise lib.MachineryError(f"verdicts not total: {len(v)} of {len(part)}")
+        verd.update(v)
+        agg.distinct += r.distinct
+        agg.generated += r.generated
+        agg.wall_s += r.wall_s
+        path.unlink()
+    return agg, verd
 
 
 def _tlc(*a, **kw):
@@ -398,9 +414,9 @@ def generate(tier, seed, wd):
         ex = [dict(NThreads=2, NOps=1, MaxDepth=2, MaxOps=3, MaxEvents=5)]
         sim, nsim = dict(NThreads=3, NOps=2, MaxDepth=2, MaxOps=5, MaxEvents=10), 250
     else:
-        mc = dict(NThreads=3, NOps=2, MaxDepth=2, MaxOps=4, MaxEvents=8)
-        ex = [dict(NThreads=2, NOps=1, MaxDepth=2, MaxOps=4, MaxEvents=6), dict(NThreads=3, NOps=2, MaxDepth=2, MaxOps=3, MaxEvents=5)]
-        sim, nsim = dict(NThreads=3, NOps=2, MaxDepth=3, MaxOps=7, MaxEvents=14), 6000
+        mc = dict(NThreads=3, NOps=2, MaxDepth=2, MaxOps=4, MaxEvents=7)
+        ex = [dict(NThreads=2, NOps=1, MaxDepth=2, MaxOps=3, MaxEvents=6), dict(NThreads=3, NOps=2, MaxDepth=2, MaxOps=3, MaxEvents=4)]
+        sim, nsim = dict(NThreads=3, NOps=2, MaxDepth=3, MaxOps=7, MaxEvents=14), 2500
     runs = []
     m = _tlc("DecompCtx", lib.cfg(constants=mc, invariants=INVS, view="NoHist"), wd / "mc", timeout=3000)
     runs.append(m)
@@ -455,7 +471,7 @@ def run(tier, seed):
     _dbg(t0, "stepped replay done")
     # free-running threads on histories without global additions
     free_ids = [i for i, f in enumerate(feats) if not f["global_add"] and f["concurrent_ctx"]]
-    free_ids = rng.sample(free_ids, min(len(free_ids), 200 if tier == "quick" else 6000))
+    free_ids = rng.sample(free_ids, min(len(free_ids), 200 if tier == "quick" else 3000))
     old = sys.getswitchinterval()
     sys.setswitchinterval(1e-6)
     try:
